@@ -140,15 +140,22 @@ func TestRegForgedRotationsRejected(t *testing.T) {
 }
 
 // TestRegBatchRemoveWithNewOpenInvite: one record removes a member (rotating the key) and
-// creates an open invite. An outsider who joins through that invite must derive the current
-// key and every earlier one; content written afterwards decrypts for it and its own content
-// decrypts for the others. Control: the same with the invite created before the batch.
+// creates an open invite. WHENEVER a join through that invite is accepted, the joiner derives
+// the current key and every earlier one, content written afterwards decrypts for it and its
+// own content decrypts for the others. (Observation outside the statement: on the pinned tree
+// the invite embeds the pre-rotation key, the first join is refused by the joiner's own
+// builder, and only the next rotation re-keys the invite; the scenario therefore joins again
+// after a rotation. Nothing is demanded of the refused join.)
+// Control: the same with the invite created before the batch.
 func TestRegBatchRemoveWithNewOpenInvite(t *testing.T) {
 	mustClasses(t, Case{Seed: 31, N: 4, Sign: true, Steps: []Step{
 		o("add", 0, 1, aclgen.Writer), wr(1),
 		{Op: &aclgen.Op{Kind: "batch", Actor: 0, Sub: []aclgen.Op{{Kind: "remove", Target: 1}, {Kind: "new_invite", Perm: aclgen.Writer}}}},
 		wr(0),
 		oref("invite_join", 2, -1, 0),
+		wr(1),
+		o("read_key_change", 0, 0, 0),
+		oref("invite_join", 2, -1, 0), // refused if the first one was accepted
 		wr(1), wr(0),
 	}}, "rotation-and-new-open-invite-in-one-record", "join-through-invite-created-by-removal-batch")
 }
@@ -162,4 +169,20 @@ func TestRegBatchRemoveWithEarlierOpenInvite(t *testing.T) {
 		oref("invite_join", 2, -1, 0),
 		wr(1), wr(0),
 	}}, "open-invite-join-after-rotation", "rotation-with-live-open-invite")
+}
+
+// an account's open tree keeps receiving changes while the account is out; the account is
+// admitted again without another rotation and writes (first scenario) or reads (second: another
+// member writes first) through that same tree object.
+func TestRegReadmittedOpenTree(t *testing.T) {
+	wp := func(acc int) Step { return Step{W: &Write{Author: 0, Len: 40, Pref: acc + 1}} }
+	mustClasses(t, Case{Seed: 41, N: 4, Sign: true, Steps: []Step{
+		o("add", 0, 1, aclgen.Writer), o("add", 0, 2, aclgen.Writer), wp(1),
+		o("remove", 0, 1, 0), wp(2), wp(0),
+		o("add", 0, 1, aclgen.Writer),
+		wp(1), wp(2),
+		o("remove", 0, 2, 0), wp(0),
+		oref("invite", 0, 0, 0), oref("request_join", 2, -1, 0), o("accept", 0, 2, aclgen.Writer),
+		wp(1), wp(2),
+	}}, "tree-readmitted-without-rotation-writes-through-open-tree", "tree-readmitted-without-rotation-reads-through-open-tree", "tree-open-tree-of-removed-account-receives-ciphertext")
 }
